@@ -281,10 +281,8 @@ func H_C12_lazy(inst int) {
 	i := newFull()
 	ticks := 0
 	i.Register0(engine.NewAtom("tick"), func(vm *engine.VM, k engine.Cont, env *engine.Env) *engine.Promise {
-		return engine.Delay(func(context.Context) *engine.Promise {
-			ticks++
-			return k(env)
-		})
+		ticks++ // runs as soon as the goal is reached, like assertz/1 or write/1 do
+		return k(env)
 	})
 	verify(i.Exec(":- dynamic(lz/1). lz(1). lz(2). lz(3). lz2(1, a). lz2(2, b). lzg(1) --> [a]. lzg(2) --> [a].") == nil, "harness: setup failed")
 	before := runtime.NumGoroutine()
